@@ -63,7 +63,7 @@ def entry(i, tag=""):
     return Agg("adt", "RegistrationEntry", (Abs("vk", z3.Int("key%s_%d" % (tag, i))), z3.Int("stake%s_%d" % (tag, i))))
 
 
-def pipeline(ctx, prog, entries, order, cons):
+def pipeline(ctx, prog, entries, order, cons, keep_rejected=False):
     """register `entries` in the given order, close, build the tree: list of (state, dict) over all paths"""
     I = ctx.I
     f_reg = prog.find_one(r"key_registration/register\.rs.*>::register_by_entry$")
@@ -78,8 +78,16 @@ def pipeline(ctx, prog, entries, order, cons):
         st.assume(c)
     I.frame_counter += 1
     kf = I.frame_counter
-    kr_fields = {"registration_entries": Agg("btreeset", None, ()), "registered_keys_for_concatenation": Agg("hashset", None, ())}
-    st.mem[(kf, 0)] = Agg("adt", "KeyRegistration", tuple(kr_fields[n] for n, t in db.struct_fields("KeyRegistration")))
+    try:
+        f_init = prog.find_one(r"key_registration/register\.rs.*>::initialize$")
+        o0 = [o for o in I.call_fn(f_init, [], st) if o.kind == "return"]
+        if len(o0) != 1:
+            raise Unencodable("KeyRegistration::initialize: %d paths" % len(o0))
+        st = o0[0].state
+        st.mem[(kf, 0)] = o0[0].value
+    except Unencodable:
+        kr_fields = {"registration_entries": Agg("btreeset", None, ()), "registered_keys_for_concatenation": Agg("hashset", None, ())}
+        st.mem[(kf, 0)] = Agg("adt", "KeyRegistration", tuple(kr_fields.get(n, z3.IntVal(0) if t.strip() in ("Stake", "u64", "usize", "u128") else Opaque(t)) for n, t in db.struct_fields("KeyRegistration")))
     states = [st]
     for i in order:
         nxt = []
@@ -90,7 +98,7 @@ def pipeline(ctx, prog, entries, order, cons):
             for o in I.call_fn(f_reg, [Ref(kf, 0, (), True), Ref(ef, 0, ())], s):
                 if o.kind != "return":
                     raise Unencodable("register_by_entry: %s %s" % (o.kind, o.msg))
-                if o.value.discr == 0:
+                if o.value.discr == 0 or keep_rejected:
                     nxt.append(o.state)
         states = nxt
     results = []
@@ -124,6 +132,69 @@ def pipeline(ctx, prog, entries, order, cons):
                     nleaves = [x for x in com.fields if z3.is_expr(x)][0]
                     results.append((o3.state, {"root": root, "nr_leaves": nleaves, "total_stake": total, "sorted": entries_sorted, "closed_ref": Ref(cf, 0, ())}))
     return results, f_index
+
+
+def key_order(rep, prog, tmo, failures):
+    """the byte-wise key comparison that orders the registration: Equal exactly for identical encodings, and antisymmetric
+    (the BTreeSet model above relies on the key order being a total order consistent with key equality)"""
+    ctx = c09.Ctx(prog, unroll=100)
+    I = ctx.I
+    BYTE = z3.Function("key_byte", z3.IntSort(), z3.IntSort(), z3.IntSort())
+
+    def models(I, st, caller, func, args, argtys, dest_ty):
+        f = MM.strip_std_paths(func)
+        if re.search(r"BlsVerificationKey::to_bytes$", f):
+            k_ = MM.deref_all(I, st, args[0])
+            kt = [x for x in ([k_] if isinstance(k_, Abs) else k_.fields) if isinstance(x, Abs)][0].term
+            return MM.ret(st, Agg("array", None, tuple(BYTE(kt, z3.IntVal(i)) for i in range(96))))
+        return None
+    I.models = [models] + I.models
+    f_cmp = prog.find_one(r"verification_key\.rs.*>::compare_verification_keys$")
+    ka, kb = z3.Int("key_a"), z3.Int("key_b")
+    runs = {}
+    for tag, (x, y) in (("ab", (ka, kb)), ("ba", (kb, ka))):
+        st = MI.State()
+        for k_ in (ka, kb):
+            for i in range(96):
+                st.assume(z3.And(BYTE(k_, z3.IntVal(i)) >= 0, BYTE(k_, z3.IntVal(i)) <= 255))
+        fr = I.frame_counter + 1
+        I.frame_counter += 2
+        st.mem[(fr, 0)] = Agg("adt", "BlsVerificationKey", (Abs("vk", x),))
+        st.mem[(fr + 1, 0)] = Agg("adt", "BlsVerificationKey", (Abs("vk", y),))
+        outs = I.call_fn(f_cmp, [Ref(fr, 0, ()), Ref(fr + 1, 0, ())], st)
+        for o in outs:
+            if o.kind != "return":
+                raise Unencodable("compare_verification_keys: %s %s" % (o.kind, o.msg))
+        runs[tag] = outs
+    same = z3.And([BYTE(ka, z3.IntVal(i)) == BYTE(kb, z3.IntVal(i)) for i in range(96)])
+
+    def disc(o):
+        d = o.value.discr
+        return d if z3.is_expr(d) else z3.IntVal(d)
+    eqv = z3.IntVal(I.variant_index("Ordering", "Equal"))
+    ob = rep.add(core.Obligation("c06_key_order_equal_iff_same_encoding", "smt", "compare_verification_keys(a, b) is Equal exactly when the 96-byte encodings of a and b are identical (all byte contents)",
+                                 {"vccs": len(runs["ab"]), "paths": len(runs["ab"])}))
+    bad = z3.Or([z3.And(list(o.pc) + [(disc(o) == eqv) != same]) for o in runs["ab"]])
+    r = smt.check([bad], timeout_s=tmo)
+    ob.solver_s = r.seconds
+    ob.status = "discharged" if r.status == "unsat" else "failed" if r.status == "sat" else "inconclusive"
+    if r.status == "sat":
+        diffs = [i for i in range(96) if r.model.eval(BYTE(ka, z3.IntVal(i)), model_completion=True).as_long() != r.model.eval(BYTE(kb, z3.IntVal(i)), model_completion=True).as_long()]
+        ob.counterexample = {"bytes_that_differ": diffs[:8], "a": [r.model.eval(BYTE(ka, z3.IntVal(i)), model_completion=True).as_long() for i in diffs[:8]],
+                             "b": [r.model.eval(BYTE(kb, z3.IntVal(i)), model_completion=True).as_long() for i in diffs[:8]]}
+        failures.append(("key_order", 2, (), ob))
+    elif r.status != "unsat":
+        rep.inconcl("%s: %s" % (ob.name, r.reason))
+    ob = rep.add(core.Obligation("c06_key_order_antisymmetric", "smt", "compare_verification_keys(a, b) is the reverse of compare_verification_keys(b, a)"))
+    rev = lambda d: -d  # Ordering discriminants are -1, 0, 1
+    bad = z3.Or([z3.And(list(o1.pc) + list(o2.pc) + [disc(o1) != rev(disc(o2))]) for o1 in runs["ab"] for o2 in runs["ba"]])
+    r = smt.check([bad], timeout_s=tmo)
+    ob.solver_s = r.seconds
+    ob.status = "discharged" if r.status == "unsat" else "failed" if r.status == "sat" else "inconclusive"
+    if r.status == "sat":
+        failures.append(("key_order", 2, (), ob))
+    elif r.status != "unsat":
+        rep.inconcl("%s: %s" % (ob.name, r.reason))
 
 
 def slot_of(ctx, st, sorted_entries, key_term):
@@ -202,6 +273,52 @@ def run(tier, seed):
                     if status == "failed":
                         break
                 ob.status = status
+            # total stake = mathematical sum of the registered stakes (so an overflowing total never closes)
+            if base:
+                ob = rep.add(core.Obligation("c06_total_stake_is_sum_n%d" % n, "smt", "n=%d: a closed registration's total stake is the exact sum of the registered stakes (no wrap, no saturation)" % n))
+                status = "discharged"
+                for s1, d1 in base[1]:
+                    r = smt.check(list(s1.pc) + [d1["total_stake"] != z3.Sum(stakes)], timeout_s=tmo)
+                    ob.solver_s += r.seconds
+                    if r.status == "sat":
+                        status = "failed"
+                        ob.counterexample = {a: b for a, b in smt.model_to_dict(r.model).items() if a.startswith(("key_", "stake_"))}
+                        ob.counterexample["total_stake"] = str(r.model.eval(d1["total_stake"], model_completion=True))
+                        failures.append(("total_stake", n, (), ob))
+                        break
+                    if r.status != "unsat":
+                        status = "inconclusive"
+                        rep.inconcl("%s: %s" % (ob.name, r.reason))
+                ob.status = status
+            # histories in which a registration is retried (and rejected as a duplicate): same outcome as without the retry
+            if base:
+                ident = tuple(range(n))
+                for hist in [(0,) + ident, ident + (0,), ident + (n - 1,)]:
+                    ctxh = Ctx(prog)
+                    res, _ = pipeline(ctxh, prog, ents, hist, cons, keep_rejected=True)
+                    ob = rep.add(core.Obligation("c06_retry_history_n%d_%s" % (n, "".join(map(str, hist))), "smt",
+                                                 "n=%d: the arrival history %s (one registration retried and rejected) closes to the same root, leaf count and total stake as %s" % (n, hist, base[0]),
+                                                 {"vccs": len(res) * len(base[1])}))
+                    status = "discharged" if res else "inconclusive"
+                    if not res:
+                        rep.inconcl("%s: no successful path" % ob.name)
+                    for s1, d1 in base[1]:
+                        for s2, d2 in res:
+                            differ = z3.Or(d1["root"] != d2["root"], d1["nr_leaves"] != d2["nr_leaves"], d1["total_stake"] != d2["total_stake"])
+                            r = smt.check(list(s1.pc) + list(s2.pc) + [differ], timeout_s=tmo)
+                            ob.solver_s += r.seconds
+                            if r.status == "sat":
+                                status = "failed"
+                                ob.counterexample = {a: b for a, b in smt.model_to_dict(r.model).items() if a.startswith(("key_", "stake_"))}
+                                ob.counterexample["history"] = list(hist)
+                                failures.append(("history_dependence", n, hist, ob))
+                                break
+                            if r.status != "unsat":
+                                status = "inconclusive"
+                                rep.inconcl("%s: %s" % (ob.name, r.reason))
+                        if status == "failed":
+                            break
+                    ob.status = status
             # slots reported by the real get_signer_index_for_registration agree with the sorted position (base order)
             if base:
                 order, res, ctx = base
@@ -255,6 +372,10 @@ def run(tier, seed):
         rep.functions += sorted(set("%s -> %s" % (a, b) for a, b in ctx.I.calls_seen.items() if b.startswith("mir:")))
     except Unencodable as e:
         rep.inconcl("unencodable: %s" % e)
+    try:
+        key_order(rep, prog, tmo, failures)
+    except Unencodable as e:
+        rep.inconcl("unencodable (key order): %s" % e)
     k = 0
     seen = set()
     for clause, n, order, ob in failures:
